@@ -147,6 +147,7 @@ func l1Corpus(c *Ctx, family string, sampleEvery int) []reqCase {
 		out = append(out, reqCase{ID: fmt.Sprintf("services/%d-in-one-file", n), Files: corpus.ManyServices(fmt.Sprintf("%s.ms%d", family, n), fmt.Sprintf("%sms%d", family, n), n, 1)})
 		out = append(out, reqCase{ID: fmt.Sprintf("services/%d-in-three-files", n), Files: corpus.ManyServices(fmt.Sprintf("%s.mt%d", family, n), fmt.Sprintf("%smt%d", family, n), n, 3)})
 	}
+	out = append(out, examplesByKindCases()...)
 	out = append(out, reqCase{ID: "twins/packages", Files: corpus.TwinPackages(family+".tw", family+"tw")})
 	for _, es := range corpus.EnumShapes(family+".en", family+"en") {
 		out = append(out, reqCase{ID: "enums/" + es.Label, Files: es.Files})
